@@ -323,7 +323,7 @@ func racePass(tier string) ([]engine.Mismatch, []string, error) {
 			report = report[:6000] + "\n..."
 		}
 		m := engine.Mismatch{
-			Property: "C20", Family: "race", Key: "race-pass",
+			Property: "C20", Family: "RACE", Key: "race-pass",
 			Input:    how,
 			Expected: "no race detector report, all logs equal to the solo logs, exit status 0",
 			Observed: fmt.Sprintf("%s (exit status %d): %s", kind, code, report),
